@@ -10,7 +10,7 @@ import vlib
 
 PROP = 'C09'
 HEADER = ('From Coq Require Import List NArith.\nImport ListNotations.\n'
-          'From VCp Require Import Resource Dispatcher.\nOpen Scope N_scope.\n')
+          'From VCp Require Import Resource Dispatcher CuCompletion.\nOpen Scope N_scope.\n')
 COQ_TARGETS = ['props/C09.vo']
 
 
@@ -183,28 +183,75 @@ def monitor_cp(case):
     return None
 
 
+def monitor_emu(case):
+    """Property C09 on the real command processor + real emulation compute units:
+    every MapWGReq is reported complete exactly once, no panic, one response per
+    launch and only after all its work-groups were mapped and reported.  Every
+    action sequence of the harness is a legal environment."""
+    launches, owner, reported, answered, nmap = {}, {}, set(), set(), collections.Counter()
+    for i, e in enumerate(case['trace']):
+        if e['e'] == 'crash':
+            return 'step %d: the command processor / emulation CU panicked on protocol-respecting traffic' % i
+        if e['e'] == 'launch':
+            launches[e['launch']] = e['nwg']
+        elif e['e'] == 'map':
+            if e['id'] in owner:
+                return 'step %d: MapWGReq %d delivered twice' % (i, e['id'])
+            owner[e['id']] = e.get('launch', 0)
+            nmap[e.get('launch', 0)] += 1
+            if nmap[e.get('launch', 0)] > launches.get(e.get('launch', 0), 0):
+                return 'step %d: more MapWGReqs than work-groups for launch %d' % (i, e.get('launch', 0))
+        elif e['e'] == 'comp':
+            for x in e['ids']:
+                if x not in owner:
+                    return 'step %d: completion reported for an unknown MapWGReq' % i
+                if x in reported:
+                    return 'step %d: MapWGReq %d reported complete more than once (message %s)' % (i, x, e['ids'])
+                reported.add(x)
+        elif e['e'] == 'rsp':
+            l = e.get('launch', 0)
+            if l not in launches:
+                return 'step %d: LaunchKernelRsp for an unknown launch' % i
+            if l in answered:
+                return 'step %d: second LaunchKernelRsp for launch %d' % (i, l)
+            answered.add(l)
+            mine = [x for x, o in owner.items() if o == l]
+            if len(mine) != launches[l] or any(x not in reported for x in mine):
+                return 'step %d: LaunchKernelRsp for launch %d before all its work-groups were mapped and reported' % (i, l)
+    return None
+
+
 def monitor(case):
-    return monitor_cp(case) if case['mode'] == 'cp' else monitor_res(case)
+    if case['mode'] == 'cp':
+        return monitor_cp(case)
+    if case['mode'] == 'emu':
+        return monitor_emu(case)
+    return monitor_res(case)
 
 
 def strip(case):
     """replay input: the case without observations"""
+    if case['mode'] == 'emu':
+        return {'mode': 'emu', 'ncu': case['ncu'], 'actions': case['actions']}
     if case['mode'] == 'cp':
         return {'mode': 'cp', 'hostile': case.get('hostile', False), 'launch_ov': case.get('launch_ov', 0),
                 'sub_ov': case.get('sub_ov', 0), 'kernel_ov': case.get('kernel_ov', 0), 'cus': case['cus'],
-                'ndisp': case['ndisp'],
+                'ndisp': case['ndisp'], 'cap': case.get('cap', 0), 'alg': case.get('alg', ''),
                 'events': [{k: e[k] for k in ('e', 'launch', 'ids') if k in e} for e in case['events']]}
     return {'mode': 'res', 'hostile': case.get('hostile', False), 'cfg': case['cfg'],
             'ops': [{k: o[k] for k in ('op', 'key', 'nwf', 'sgpr', 'vgpr', 'lds')} for o in case['ops']]}
 
 
+SEQ = {'cp': 'events', 'emu': 'actions', 'res': 'ops'}
+
+
 def seq(case):
-    return case['events'] if case['mode'] == 'cp' else case['ops']
+    return case[SEQ[case['mode']]]
 
 
 def with_seq(case, items):
     c = dict(case)
-    c['events' if case['mode'] == 'cp' else 'ops'] = items
+    c[SEQ[case['mode']]] = items
     return c
 
 
@@ -221,10 +268,19 @@ def run_impl(binary, cases=None, mode='res', seed=1, n=100):
         return None, log
     out = json.load(open(tmp))
     os.remove(tmp)
+    for c in out:            # Go omits empty slices
+        for k in ('trace', 'cutr', 'actions', 'events', 'ops', 'coqcu'):
+            if c['mode'] == {'trace': 'emu', 'cutr': 'emu', 'actions': 'emu', 'coqcu': 'emu', 'events': 'cp', 'ops': 'res'}[k] \
+                    and c.get(k) is None:
+                c[k] = []
+        if c['mode'] == 'emu':
+            c['cutr'] = [t or [] for t in c['cutr']]
     return out, log
 
 
 def nontrivial(case):
+    if case['mode'] == 'emu':
+        return sum(1 for e in case['trace'] if e['e'] == 'comp') >= 2
     if case['mode'] == 'cp':
         ev = case['events']
         return sum(1 for e in ev if e.get('map')) >= 2 and any(e['e'] == 'complete' and e.get('acc') for e in ev)
@@ -248,7 +304,7 @@ def main(argv):
                        'every work-group has at least one wavefront',
                        'the sampled histories only decide whether the real code still behaves like the models']
     thorough = vlib.tier() == 'thorough'
-    n_res, n_cp = (2500, 1500) if thorough else (260, 200)
+    n_res, n_cp, n_emu = (2500, 1500, 500) if thorough else (260, 220, 60)
 
     replay_file = None
     if '--replay' in argv:
@@ -274,7 +330,7 @@ def main(argv):
     cases = []
     if replay_file:
         obj = json.load(open(replay_file))
-        src = obj.get('case') or obj.get('cases') or obj
+        src = obj if isinstance(obj, list) else (obj.get('case') or obj.get('cases') or obj)
         src = src if isinstance(src, list) else [src]
         cases, log = run_impl(binary, cases=[strip(c) for c in src])
         cases = cases or []
@@ -287,7 +343,7 @@ def main(argv):
         if corpus:
             got, log = run_impl(binary, cases=[strip(c) for c in corpus])
             cases = got or []
-        for mode, n in (('res', n_res), ('cp', n_cp)):
+        for mode, n in (('res', n_res), ('cp', n_cp), ('emu', n_emu)):
             gen, log = run_impl(binary, mode=mode, seed=vlib.seed(), n=n)
             if gen is None:
                 rep.obligation('harness run (%s)' % mode, False)
@@ -300,12 +356,17 @@ def main(argv):
     bad = [(i, m) for i, m in bad if m]
     # ---- correspondence with the models
     res_idx = [i for i, c in enumerate(cases) if c['mode'] == 'res']
-    cp_idx = [i for i, c in enumerate(cases) if c['mode'] == 'cp']
+    cp_all = [i for i, c in enumerate(cases) if c['mode'] == 'cp']
+    cp_idx = [i for i in cp_all if cases[i].get('coq')]          # partition has no model: monitor only
+    emu_idx = [i for i, c in enumerate(cases) if c['mode'] == 'emu']
+    emu_terms = [(i, t) for i in emu_idx for t in cases[i].get('coqcu', [])]
     mism, okc, clog = [], True, ''
-    for tag, idx, checker, shard in (('r', res_idx, 'rmismatches', 20), ('c', cp_idx, 'cmismatches', 16)):
+    for tag, idx, terms, checker, shard in (('r', res_idx, [cases[i]['coq'] for i in res_idx], 'rmismatches', 20),
+                                            ('c', cp_idx, [cases[i]['coq'] for i in cp_idx], 'cmismatches', 16),
+                                            ('e', [i for i, _ in emu_terms], [t for _, t in emu_terms], 'emismatches', 12)):
         if not idx:
             continue
-        o, mm, lg = vlib.eval_cases(PROP + tag, HEADER, [cases[i]['coq'] for i in idx], shard_size=shard, checker=checker)
+        o, mm, lg = vlib.eval_cases(PROP + tag, HEADER, terms, shard_size=shard, checker=checker)
         okc = okc and o
         clog += lg
         mism += [(idx[a], k) for a, k in mm]
@@ -314,10 +375,23 @@ def main(argv):
                    okc and not [m for m in mism if cases[m[0]]['mode'] == 'res'])
     rep.obligation('correspondence (dispatcher layer): %d port-level histories evaluated by the model' % len(cp_idx),
                    okc and not [m for m in mism if cases[m[0]]['mode'] == 'cp'])
+    rep.obligation('correspondence (emulation CU completion path): %d compute-unit traces evaluated by the model' % len(emu_terms),
+                   okc and not [m for m in mism if cases[m[0]]['mode'] == 'emu'])
 
     res_cases = [cases[i] for i in res_idx]
-    cp_cases = [cases[i] for i in cp_idx]
+    cp_cases = [cases[i] for i in cp_all]
+    emu_cases = [cases[i] for i in emu_idx]
+    handles = [collections.Counter(e.get('id', 0) for e in (t or []) if e['e'] == 'handle') for c in emu_cases for t in (c.get('cutr') or [])]
     rep.coverage.update({
+        'cp_small_port_cases': sum(1 for c in cp_cases if c.get('cap')),
+        'cp_deliveries_refused': sum(1 for c in cp_cases for e in c['events'] if e.get('acc') is False),
+        'cp_algorithms': dict(collections.Counter(c.get('alg') or 'round-robin' for c in cp_cases)),
+        'cp_monitor_only_cases(partition)': len(cp_all) - len(cp_idx),
+        'emu_cases': len(emu_cases),
+        'emu_mapwg': sum(1 for c in emu_cases for e in c['trace'] if e['e'] == 'map'),
+        'emu_completion_msgs': sum(1 for c in emu_cases for e in c['trace'] if e['e'] == 'comp'),
+        'emu_ids_reported_after_retry': sum(1 for k in handles for v in k.values() if v > 1),
+        'emu_launch_rsp': sum(1 for c in emu_cases for e in c['trace'] if e['e'] == 'rsp'),
         'evaluations': len(cases),
         'distinct_nontrivial': len({vlib.case_hash(strip(c)) for c in cases if nontrivial(c)}),
         'rule': 'res: random capacities (1-4 SIMDs, pools 0-10, masks of 1-256 units) and 20-80 random reserve/free calls with '
@@ -335,12 +409,12 @@ def main(argv):
         'cp_mapwg': sum(1 for c in cp_cases for e in c['events'] if e.get('map')),
         'cp_launch_rsp': sum(1 for c in cp_cases for e in c['events'] if e.get('rsp') is not None),
         'cp_overlapping_launch_cases': sum(1 for c in cp_cases if sum(1 for e in c['events'] if e['e'] == 'launch') >= 2 and c['ndisp'] >= 2),
-        'panics_observed': sum(1 for c in cases if any(x.get('crash') for x in seq(c))),
+        'panics_observed': sum(1 for c in cases if c['mode'] != 'emu' and any(x.get('crash') for x in seq(c))),
         'hostile_cases': sum(1 for c in cases if c.get('hostile')),
         'model_mismatches': len(mism), 'monitor_failures': len(bad),
     })
-    rep.samples = [{'mode': c['mode'], 'first': [dict((k, v) for k, v in x.items() if k in ('op', 'e', 'key', 'ok', 'ids', 'rsp')) for x in seq(c)[:12]]}
-                   for c in (res_cases[:1] + cp_cases[:1])]
+    rep.samples = [{'mode': c['mode'], 'first': [dict((k, v) for k, v in x.items() if k in ('op', 'e', 'key', 'ok', 'ids', 'rsp', 'a', 'n')) for x in seq(c)[:12]]}
+                   for c in (res_cases[:1] + cp_cases[:1] + emu_cases[:1])]
 
     def fails_monitor(items, base):
         out, _ = run_impl(binary, cases=[strip(with_seq(base, items))])
@@ -350,7 +424,7 @@ def main(argv):
         # try harder: more seeds through the property monitor only
         for extra in range(1, 5):
             more = []
-            for mode, n in (('res', 400), ('cp', 300)):
+            for mode, n in (('res', 400), ('cp', 300), ('emu', 100)):
                 gen, _ = run_impl(binary, mode=mode, seed=vlib.seed() + 7919 * extra, n=n)
                 more += gen or []
             found = [(j, monitor(c)) for j, c in enumerate(more)]
@@ -368,6 +442,7 @@ def main(argv):
         final = out[0] if out and monitor(out[0]) else c
         final = dict(final)
         final.pop('coq', None)
+        final.pop('coqcu', None)
         rep.violation({'property': PROP, 'what': monitor(final), 'case': final,
                        'replay_cmd': './check C09 --replay <this file>'}, text=msg)
     elif mism or not okc:
@@ -375,8 +450,10 @@ def main(argv):
         c = dict(cases[i]) if cases else None
         if c:
             c.pop('coq', None)
-        which = 'coq/cp/Dispatcher.v and the command processor / dispatcher' if c and c['mode'] == 'cp' else \
-            'coq/cp/Resource.v and curesourceimpl.go / resourcemask.go'
+            c.pop('coqcu', None)
+        which = {'cp': 'coq/cp/Dispatcher.v and the command processor / dispatcher',
+                 'emu': 'coq/cp/CuCompletion.v and amd/emu/computeunit.go (completion batching)',
+                 'res': 'coq/cp/Resource.v and curesourceimpl.go / resourcemask.go'}[c['mode'] if c else 'res']
         rep.violation({'property': PROP, 'broken': 'correspondence between %s: observation %d of history %d differs; the '
                        'theorems of props/C09.v no longer speak about this code' % (which, k, i),
                        'case': c, 'first_diverging_event': k, 'log': clog[-2000:]}, nofail=True,
